@@ -54,11 +54,15 @@ STRING_LABELS = {"cancel6", "parallel"}
 OPAQUE_LABELS = {"parallel_split4", "sink_first_order", "antipar_both6"}  # hashable labels without an ordering
 
 
-def h_maxflow(s, n, arcs, source, sink, labels=False):
+def h_maxflow(s, n, arcs, source, sink, labels=False, key_order=None):
     mod = importlib.import_module("solvor.flow")
     name = namer(labels)
     caps = [s.int("cap%d" % k, 0, None) for k in range(len(arcs))]
     graph = {}
+    if key_order is not None:  # the dict's key order (which node is seen first) is part of the input: insert the keys in this order
+        for u in key_order:
+            if any(a == u for (a, _b) in arcs):
+                graph[name(u)] = []
     for k, (u, v) in enumerate(arcs):
         graph.setdefault(name(u), []).append((name(v), caps[k]))
     snapshot = {u: list(l) for u, l in graph.items()}
@@ -123,6 +127,22 @@ def items(tier, rng):
         if n >= 6:
             it["split"] = 5
         out.append(it)
+    # key order of the adjacency dict: interior nodes before the source, reversed, seeded shuffles - on the topologies where an earlier
+    # augmenting path has to be cancelled (which arc is read first decides which residual entries exist when)
+    CANCEL7 = (7, [(0, 1), (0, 3), (3, 4), (4, 2), (1, 2), (1, 5), (2, 6), (5, 6)], 0, 6)  # s=0,a=1,b=2,c=3,d=4,e=5(f merged),t=6
+    for nm, (n, arcs, so, si) in list(NAMED.items()) + [("cancel7", CANCEL7)]:
+        if n < 5:
+            continue
+        orders = [list(reversed(range(n))), [x for x in range(n) if x not in (so, 1)] + [1, so]]
+        for _ in range(2 if tier == "quick" else 6):
+            o = list(range(n))
+            rng.shuffle(o)
+            orders.append(o)
+        for ko in orders:
+            it = {"name": "order_" + nm, "harness": "h_maxflow", "params": {"n": n, "arcs": arcs, "source": so, "sink": si, "key_order": ko}}
+            if n >= 6:
+                it["split"] = 5
+            out.append(it)
     # seeded multigraph topologies: arcs drawn with repetition, random order (parallel arcs need not be adjacent)
     for i in range(40 if tier == "quick" else 400):
         cand = [(u, v) for u in range(4) for v in range(4) if u != v]
